@@ -164,7 +164,9 @@ ArgClass(l) ==
     [] OTHER -> "-"
 Tour ==
   IF last'.a \in {"Init", "Tick"} THEN TRUE
-  ELSE LET sig == ToString(<<Alpha(VR, SM, G, epoch), last'.a, ArgClass(last'), last'.ok>>)
+  ELSE LET sig == IF VR' = VR /\ SM' = SM     \* rejected or without effect: the pre-state does not refine the signature
+                  THEN ToString(<<"-", last'.a, ArgClass(last'), last'.ok>>)
+                  ELSE ToString(<<Alpha(VR, SM, G, epoch), last'.a, ArgClass(last'), last'.ok>>)
        IN  IF sig \in TLCGet(42) THEN TRUE
            ELSE TLCSet(42, TLCGet(42) \cup {sig}) /\ PrintT(<<"REPLAY", ToJson([sig |-> sig, calls |-> hist'])>>)
 Export == Len(hist) # ExportLen \/ PrintT(<<"REPLAY", ToJson(hist)>>)
